@@ -153,7 +153,9 @@ func userSet(n int) []*refEntry {
 		return []*refEntry{mk("eve"),
 			{DN: udn("nopw"), Attrs: []codec.Attr{{Type: "name", Vals: []string{"x"}}}},
 			{DN: udn("zerovals"), Attrs: []codec.Attr{{Type: "name", Vals: []string{"z"}}, {Type: "password", Vals: []string{}}}},
-			{DN: udn("emptystr"), Attrs: []codec.Attr{{Type: "name", Vals: []string{"e"}}, {Type: "password", Vals: []string{""}}}}}
+			{DN: udn("emptystr"), Attrs: []codec.Attr{{Type: "name", Vals: []string{"e"}}, {Type: "password", Vals: []string{""}}}},
+			// built as a struct literal (see liveUsers): only the string values are set
+			{DN: udn("literal"), Attrs: []codec.Attr{{Type: "password", Vals: []string{"pw-literal", "second"}}}}}
 	default:
 		// what testdirectory.NewUsers(names, WithMembersOf("admin", "staff")) builds (see sharedUsers): every
 		// entry is handed the same memberOf slice
@@ -173,7 +175,12 @@ func liveUsers(t testdirectory.TestingT, n int) []*gldap.Entry {
 	if n == 3 {
 		return testdirectory.NewUsers(t, sharedNames, testdirectory.WithMembersOf(t, "admin", "staff"))
 	}
-	return toEntries(userSet(n))
+	es := toEntries(userSet(n))
+	if n == 2 {
+		// the last user of set 2 is written as a literal instead of through NewEntry
+		es[len(es)-1] = &gldap.Entry{DN: udn("literal"), Attributes: []*gldap.EntryAttribute{{Name: "password", Values: []string{"pw-literal", "second"}}}}
+	}
+	return es
 }
 
 func groupSet(n int) []*refEntry {
@@ -556,7 +563,7 @@ func (e *dirEnv) probe(c *Ctx, s *refStore) [][3]string {
 		check("group base + filter", dn, want, ents, code)
 	}
 	// binds
-	for _, dn := range append(append([]string{}, poolUsers...), "", udn("nobody"), strings.ToUpper(udn("bob")), udn("nopw"), udn("zerovals"), udn("emptystr"), gdn("dev")) {
+	for _, dn := range append(append([]string{}, poolUsers...), "", udn("nobody"), strings.ToUpper(udn("bob")), udn("nopw"), udn("zerovals"), udn("emptystr"), udn("literal"), gdn("dev")) {
 		pws := []string{"", "wrong"}
 		if strings.HasPrefix(dn, "cn=dev,") {
 			pws = append(pws, "grp-pw")
